@@ -39,6 +39,7 @@ fn main() {
         "lex-replay" => xv::lexrep::cmd_replay(rest),
         "print-replay" => xv::lexrep::cmd_print_replay(rest),
         "lex-fuzz" => xv::lexrep::cmd_fuzz(rest),
+        "lexrange-replay" => xv::lexrep::cmd_range_replay(rest),
         "loc-replay" => xv::loc::cmd_replay(rest),
         "locfn-replay" => xv::loc::cmd_fn_replay(rest),
         "locnest-replay" => xv::loc::cmd_nested_replay(rest),
